@@ -418,21 +418,21 @@ def isPassPc : Pc → Bool
 open Tally.ScopeLife (visitedOf)
 
 /-- a thread inside a pass stays inside the pass under `.step`; its visited list is unchanged, except at the top of
-the loop, where the chosen registered key is added and the thread is about to swap that key's scope -/
+the loop, where the chosen registered entry `(key, scope id)` is added and the thread is about to swap that key's scope -/
 theorem step_pass_kind {s s' : State} {t c : Nat} (hs : step san s (.step t c) = some s')
     (hp : isPassPc (pcOf s t) = true) :
     isPassPc (pcOf s' t) = true ∧
     (visitedOf (pcOf s' t) = visitedOf (pcOf s t) ∨
-      ∃ k sid cl, pcOf s' t = .passSwap (k :: visitedOf (pcOf s t)) k sid cl ∧ lookup s k = some sid) := by
+      ∃ k sid cl, pcOf s' t = .passSwap ((k, sid) :: visitedOf (pcOf s t)) k sid cl ∧ lookup s k = some sid) := by
   cases hpc : pcOf s t with
   | passIter v =>
     simp only [step, hpc] at hs
     split at hs
     · cases hs
-    · split at hs
+    · next sid hl =>
+      split at hs
       · cases hs
-      · next sid hl =>
-        split at hs
+      · split at hs
         · cases hs
         · next x hx =>
           cases hs
